@@ -820,6 +820,20 @@ def grid_compose(tier):
                 b.dataset("dataset_1", list(sel), irf="irf1" if irf_kind != "none" else None, ic="j1" if needs_ic else None,
                           mc_scale=[2.0, 0.5, 3.0][:k] if (len(cases) % 3) else None)
                 cases.append(_case(b, {"dataset_1": _axes(time_axis("two_step", 24, 0.0 if irf_kind == "none" else -1.0), SPECTRAL_POOL[2:5])}, "time"))
+        # more megacomplexes in one dataset than any small-case shortcut expects (9-11), all sharing one label; and the same
+        # megacomplex listed twice (with scales)
+        for n_many in (9, 11):
+            b = compose_pool(irf_kind)
+            names = []
+            for i in range(n_many):
+                b.decay_parallel(f"mc_many{i}", ["s1", f"x{i}"])
+                names.append(f"mc_many{i}")
+            b.dataset("dataset_1", names, irf="irf1" if irf_kind != "none" else None, mc_scale=[1.0 + 0.25 * i for i in range(n_many)])
+            cases.append(_case(b, {"dataset_1": _axes(time_axis("two_step", 24, 0.0 if irf_kind == "none" else -1.0), SPECTRAL_POOL[2:5])}, "time"))
+        for sel, sc in ((["mc_par", "mc_seq", "mc_par"], [2.0, 1.5, 3.0]), (["mc_seq", "mc_par", "mc_par"], [1.5, 2.0, 3.0]), (["mc_osc", "mc_osc"], [2.0, 0.5])):
+            b = compose_pool(irf_kind)
+            b.dataset("dataset_1", list(sel), irf="irf1" if irf_kind != "none" else None, mc_scale=sc)
+            cases.append(_case(b, {"dataset_1": _axes(time_axis("two_step", 24, 0.0 if irf_kind == "none" else -1.0), SPECTRAL_POOL[2:5])}, "time"))
         # a time axis of whole numbers, handed over as an integer array
         for k in (2, 3):
             for sel in itertools.permutations(["mc_par", "mc_seq", "mc_base", "mc_osc"], k):
